@@ -406,6 +406,19 @@ def impl_hist(case):
     prs = Presentation()
     slide = prs.slides.add_slide(prs.slide_layouts[6])
     live = None
+    # other charts already in the package (each with its own embedded workbook): the chart under test is added after them
+    npre = int(case.get("pre", 0))
+    if npre:
+        from pptx.chart.data import CategoryChartData
+        from pptx.enum.chart import XL_CHART_TYPE
+        other = prs.slides.add_slide(prs.slide_layouts[6])
+        for j in range(npre):
+            ocd = CategoryChartData()
+            ocd.categories = ["pre%d-c%d" % (j, t) for t in range(2 + j)]
+            ocd.add_series("pre%d-s" % j, [j * 10 + t for t in range(2 + j)])
+            with warnings.catch_warnings():
+                warnings.simplefilter("ignore")
+                (other if j % 2 else slide).shapes.add_chart(XL_CHART_TYPE.BAR_CLUSTERED, 0, 0, Inches(2), Inches(2), ocd)
     try:
         with warnings.catch_warnings():
             warnings.simplefilter("ignore")
@@ -450,9 +463,18 @@ def impl_hist(case):
         prs.save(buf)
         buf.seek(0)
         prs2 = P2(buf)
-        ch2 = [sh for sh in prs2.slides[0].shapes if sh.has_chart][0].chart
+        # the chart under test is the last chart added to the first slide
+        ch2 = [sh for sh in prs2.slides[0].shapes if sh.has_chart][-1].chart
         reopened = {"xml": read_chart_xml(ch2._chartSpace),
                     "sheet": read_xlsx(ch2.part.chart_workbook.xlsx_part.blob)}
+        # every other chart of the package must still sit on ITS OWN workbook: cached name and values against the cells
+        for sl in prs2.slides:
+            for sh in sl.shapes:
+                if sh.has_chart and sh.chart is not ch2:
+                    oxml, osheet = read_chart_xml(sh.chart._chartSpace), read_xlsx(sh.chart.part.chart_workbook.xlsx_part.blob)
+                    bad = oracle_state(oxml, osheet)
+                    if bad:
+                        reopened.setdefault("other_charts_bad", []).append(str(bad[0])[:200])
     return states, reopened
 
 
@@ -1066,7 +1088,8 @@ def gen_cases(tier, rng):
         kind = ["cat", "cat", "xy", "bub"][i % 4]
         mk = (lambda: gen_cat(rng, nser=rng.randint(1, 5))) if kind == "cat" else (lambda: gen_xy(rng, kind, nser=rng.randint(1, 5)))
         ops = [["rep", mk()] for _ in range(rng.randint(1, 3))]
-        cases.append({"op": "hist", "data": mk(), "ops": ops, "salt": i, "reopen": i % 5 == 0, "klass": "hist-" + kind})
+        cases.append({"op": "hist", "data": mk(), "ops": ops, "salt": i, "reopen": i % 5 == 0, "pre": (i // 5) % 5 if i % 5 == 0 else 0,
+                      "klass": "hist-" + kind})
     # E1. ONE chart-data object used, extended in place (series, categories, points, number format), used again:
     #     through a chart (add_chart then replace_data with the same object) and without one (xml_bytes / xlsx_blob twice)
     for i in range(120 if quick else 1200):
@@ -1387,7 +1410,13 @@ def _run(ck, tier, rng, tmp=None):
                     concrete = True
                     ck.violation("reopen-differs", "chart XML or embedded workbook differ after save and re-open",
                                  {"entry_point": "Presentation.save / Presentation", "input": case})
+                if reopened.get("other_charts_bad"):
+                    concrete = True
+                    ck.violation("other-chart-workbook", "after save and re-open another chart of the same package no longer agrees with its own "
+                                 "embedded workbook: %s" % reopened["other_charts_bad"][0],
+                                 {"entry_point": "add_chart x n, Presentation.save / Presentation", "input": case})
                 stats["reopened"] = stats.get("reopened", 0) + 1
+                stats["reopened_with_other_charts"] = stats.get("reopened_with_other_charts", 0) + (1 if case.get("pre") else 0)
         if d is not None:
             if concrete:
                 stats["attributed_diffs"] += 1
